@@ -62,7 +62,8 @@ class C12(TalCheck):
             tmpl = g.template()
         pretty = ch.coin(0.85)
         return {"tmpl": tmpl, "plan_seed": ch.choose(1 << 30),
-                "pretty": pretty, "crlf": pretty and ch.coin(0.2)}
+                "pretty": pretty, "crlf": pretty and ch.coin(0.2),
+                "seps": pretty and ch.coin(0.25)}
 
     def make_plans(self, case, tmpl, template) -> list:
         if "plans" in case:
